@@ -186,3 +186,18 @@ PROPS["C06"] = {
         {"name": "c06.refuse", "engine": "rapid", "quick": R(4, 12000), "thorough": R(8, 600000)},
     ],
 }
+
+PROPS["C11"] = {
+    "binary": "c11_carbons",
+    "level": "exploration",
+    "technique": "stateful property-based testing (rapidcheck) on a socketless client: generated delivery histories incl. account switches, judged by a presentation oracle over message handlers, client signals and V1 carbon signals",
+    "level_text": ("Histories of 1-4 carbon deliveries to one client (V1 manager, V2 manager, or both in either order), with the configured account optionally switched between deliveries; outer sender drawn from own bare/full JID, other resources, case variants, trailing characters, look-alike domains, homoglyphs, empty, absent, strangers, the inner sender, the previous account; "
+                   "sent/received wrappers in the right or a wrong namespace; generated inner messages with attributable tokens; decorations (extra payloads, <private/> first, two <forwarded/>, nested carbon). "
+                   "A forged wrapper must never yield a carbon-flagged presentation nor a presentation carrying the inner message's sender/recipient/body; a genuine one is presented at most once per observer, equal to the inner message, flagged, and a plain genuine wrapper must be unwrapped."),
+    "level_note": "Trusted: the harness observers (a QXmppMessageHandler extension installed last, QXmppClient::messageReceived, the V1 manager's signals). 'Own bare address' is the client's configured bare JID at the time of delivery, compared exactly. The statement is one-directional, so a decorated genuine wrapper that is not unwrapped is not judged.",
+    "rule": "Non-trivial: at least one delivery whose outer sender is the own bare JID or within a small edit of it (anything but an unrelated stranger or the inner sender). Distinct = the history text (manager set, switches, sender kind, wrapper kind, decoration, inner extension set).",
+    "assumptions": ["no end-to-end-encryption extension installed"],
+    "subs": [
+        {"name": "c11.carbons", "engine": "rapid", "quick": R(8, 15000), "thorough": R(16, 1000000)},
+    ],
+}
